@@ -169,6 +169,17 @@ def extra_cases(ctx, k):
     return out
 
 
+def symrule_cases(ctx, k, n):
+    """Generated symmetric-skeleton rules in which exactly ONE attribute of the rule (charge / hydrogen count / bond order, left or
+    right side) breaks the symmetry, and their unbroken controls, on substrates grown from the matched side (generator of
+    harness/props/c11.py, `sym_rule_bases`): rules of a shape that does not occur in the corpora, where G5 (pruning invisible) and
+    G1 (renumbering the template moves the breaker to another map number) depend on the rule comparison reading every attribute."""
+    from . import c11 as C11     # imported here: c11 imports this module
+
+    return [dict(b, tseeds=[ctx.rnd.randrange(1, 2**30) for _ in range(k)], sseeds=[ctx.rnd.randrange(1, 2**30) for _ in range(k)])
+            for b in C11.sym_rule_bases(ctx, n, "symrule")]
+
+
 def tasks_of(case, idx, timeout):
     """base variant (repeat 2, raw matches glued) + tseeds x sseeds variants."""
     common = {"core": case["core"], "invert": case["invert"], "mode": case["mode"],
@@ -370,7 +381,9 @@ def run(ctx):
     k = 2
     timeout = 8.0 if quick else 60.0
     ctx.gen_rule = (
-        "regress/C05 first; hand-written symmetric pairs (corpus/c05_extra.txt); then a seeded sample of corpus reactions "
+        "regress/C05 first; hand-written symmetric pairs (corpus/c05_extra.txt); "
+        f"{60 if quick else 400} generated symmetric-skeleton rules whose symmetry one rule attribute (charge / hcount / bond order, either side) "
+        "breaks, with unbroken controls, on generated substrates (c11.sym_rule_bases); then a seeded sample of corpus reactions "
         f"({'30 with <=40 atoms' if quick else 'all of them'}; ecoli/USPTO/hydro vendored in corpus/c04_reactions.txt, parsable, fully mapped, hydrogens not mixed) "
         "x template in {centre, full ITS} x {forward, backward} x substrate in {own side; for centre templates also a foreign corpus side, "
         "60% drawn among reactions with the same changed-bond multiset}; each case = base call (twice, plus every raw match glued) "
@@ -411,10 +424,17 @@ def run(ctx):
         for c in chems:
             ctx.count("history_chemistries:" + c["family"])
         run_histories(ctx, fpool, build_histories(ctx, chems, 90 if quick else 600), timeout, "history")
-        stamps["history"] = round(time.time() - t, 1)
+        stamps["history"] = round(time.time() - t, 1); t = time.time()
         ctx.extra["stage_wall_s"] = stamps
     finally:
         fpool.close()
+    # last, so that the draws of the streams above are what they were before this stream existed
+    pool = C.Pool()
+    try:
+        run_cases(ctx, pool, symrule_cases(ctx, k, 60 if quick else 400), timeout, "symrule")
+        stamps["symrule"] = round(time.time() - t, 1)
+    finally:
+        pool.close()
     ctx.obligation("correspondence: result sets invariant under template renumbering / substrate rewriting / repetition, also inside "
                    "one interpreter after other calls (histories); comp within all; bt = comp or all; pruning invisible", not ctx.violations)
 
